@@ -205,6 +205,14 @@ def coq_failing(name, imports, case_terms, checker, shard=400, timeout=900, jobs
     """Evaluate `checker` on every case term inside Coq; return indices of cases where it is false."""
     from concurrent.futures import ThreadPoolExecutor
     shards = [(i, case_terms[i:i + shard]) for i in range(0, len(case_terms), shard)]
+    # the modules the evaluation imports must be compiled (they need not be in the cone of the property file)
+    for kind, mod in sorted(set(re.findall(r'LT\.(Model|Gen|Proofs)\.(\w+)', imports))):
+        vo = os.path.join(COQ, kind, mod + '.vo')
+        src = os.path.join(COQ, kind, mod + '.v')
+        if not os.path.exists(vo) or (os.path.exists(src) and os.path.getmtime(vo) < os.path.getmtime(src)):
+            ok, log = coq_build(f'{kind}/{mod}.vo')
+            if not ok:
+                raise CoqError(f'could not build {kind}/{mod}.vo\n' + log[-1500:])
 
     def one(arg):
         off, terms = arg
